@@ -19,7 +19,13 @@ RULE = ("per near-earth TLE (repo test TLEs + generated LEO sets, epoch at and o
         "<= 10 mixed queries drawn with repetition from a per-TLE pool (get_position scalar/array, normalised or not; "
         "get_lonlatalt; get_observer_look scalar/array; get_orbit_number incl. tbus_style/as_float; get_last_an_time; "
         "get_next_passes 1-2 h) on ONE object, every result compared byte-wise with the same query on a FRESH object; "
-        "returned arrays and argument arrays are overwritten by the caller afterwards; arguments, Tle.__dict__ and every "
+        "returned arrays and argument arrays are overwritten by the caller afterwards; (1b) aliasing histories of 2-8 "
+        "consecutive array-taking queries (get_position both normalisations, get_lonlatalt, get_observer_look, and "
+        "get_orbit_number which rejects arrays) that all receive ONE time-array object (datetime64 us/ms/s; the array itself "
+        "or a view of a base array) and ONE lon/lat/alt array object whose contents the caller changes in place in between "
+        "(times += step, times[i] = ..., base array of the view advanced or one element of it set, observer buffers moved; "
+        "sometimes no change), each result compared byte-wise with a FRESH object given a FRESH copy of the same values; "
+        "arguments, Tle.__dict__ and every "
         "module-level data value of orbital/astronomy/tlefile are hashed before/after every call; (2) real threads under a "
         "deterministic scheduler (sys.settrace, semaphores; a switch happens only before a source line of pyorbital/orbital.py): "
         "for two concurrent get_orbit_number calls ALL single pre-emption points in get_orbit_number's own frame, the first "
@@ -407,6 +413,135 @@ def gen_history(rng, pool):
         else:
             hist.append(rng.choice(pool))
     return hist
+
+
+# ---------------------------------------------------------------- (1b) aliasing: one argument buffer re-used, changed in place
+ALIAS_KINDS = [("get_position", True), ("get_position", False), ("get_lonlatalt", None), ("get_observer_look", None),
+               ("get_orbit_number", None)]     # the last one rejects arrays (ValueError): the same outcome is required
+
+
+def alias_buffers(sat, h):
+    """the caller's buffers of an aliasing history: base time array, the array it passes (base itself or a view of it),
+    and one lon/lat/alt array each for the look function"""
+    np = _np()
+    base = (sat.epoch + np.array(h["base_us"], dtype="timedelta64[us]")).astype("datetime64[%s]" % h["unit"])
+    times = base[h["view"][0]:h["view"][1]] if h.get("view") else base
+    n = len(times)
+    lon = np.array(h["lon"][:n], dtype=float)
+    lat = np.array(h["lat"][:n], dtype=float)
+    alt = np.array(h["alt"][:n], dtype=float)
+    return base, times, lon, lat, alt
+
+
+def alias_mutate(h, mut, base, times, lon, lat, alt):
+    """what the caller does to ITS OWN buffers between two queries (the objects stay the same)"""
+    np = _np()
+    op = mut["op"]
+    if op == "iadd":                          # times += step
+        times += np.timedelta64(mut["d"], h["unit"])
+    elif op == "setitem":                     # times[i] = times[i] + d
+        i = mut["i"] % len(times)
+        times[i] = times[i] + np.timedelta64(mut["d"], h["unit"])
+    elif op == "base_iadd":                   # the base array of the view that is passed is advanced
+        base += np.timedelta64(mut["d"], h["unit"])
+    elif op == "base_setitem":
+        i = mut["i"] % len(base)
+        base[i] = base[i] + np.timedelta64(mut["d"], h["unit"])
+    elif op == "obs_iadd":                    # observer buffers moved in place
+        lon += mut["dlon"]
+        lon[...] = (lon + 180.0) % 360.0 - 180.0
+        lat[...] = np.clip(lat + mut["dlat"], -89.0, 89.0)
+    elif op == "obs_setitem":
+        i = mut["i"] % len(lon)
+        lon[i] = mut["lon"]
+        lat[i] = mut["lat"]
+    else:
+        raise ValueError(op)
+
+
+def alias_args(step, times, lon, lat, alt, copy):
+    c = (lambda a: a.copy()) if copy else (lambda a: a)
+    m = step["m"]
+    if m == "get_position":
+        return [c(times), bool(step["normalize"])]
+    if m in ("get_lonlatalt", "get_orbit_number"):
+        return [c(times)]
+    if m == "get_observer_look":
+        return [c(times), c(lon), c(lat), c(alt)]
+    raise ValueError(m)
+
+
+def run_alias_history(sat, h, on_violation, count=None):
+    """ONE Orbital object, ONE time-array object (and one lon/lat/alt array object) passed to consecutive queries, its
+    contents changed in place by the caller in between.  Every result must equal, byte for byte, what a FRESH object
+    returns for a FRESH copy of the same values; the queries must leave the buffers alone."""
+    orb = new_orbital(sat.tle)
+    base, times, lon, lat, alt = alias_buffers(sat, h)
+    for idx, step in enumerate(h["steps"]):
+        for mut in step.get("mut") or []:
+            alias_mutate(h, mut, base, times, lon, lat, alt)
+        case = {"kind": "alias", "tle": list(sat.tle), "alias": dict(h, steps=h["steps"][:idx + 1]), "index": idx}
+        try:
+            ref = _guarded(lambda: call(new_orbital(sat.tle), step, alias_args(step, times, lon, lat, alt, True)), 20.0)
+        except _Timeout:
+            continue
+        args = alias_args(step, times, lon, lat, alt, False)     # the very same objects every time
+        b0 = fp([base, times, lon, lat, alt])
+        try:
+            res = _guarded(lambda: call(orb, step, args), 20.0)
+        except _Timeout:
+            res = Runaway("no result after 20 s (fresh object: %s)" % short(ref))
+        if count:
+            count()
+        if fp(res) != fp(ref):
+            on_violation("aliasing_dependent", case,
+                         "%s on the re-used buffer (step %d, after %s): %s" % (
+                             step["m"], idx, "+".join(m["op"] for m in step.get("mut") or []) or "no change", short(res)),
+                         "fresh object, fresh copy of the same values: " + short(ref), step["m"])
+        if fp([base, times, lon, lat, alt]) != b0:
+            on_violation("argument_modified", case, "argument buffers of %s changed by the call" % step["m"],
+                         "arguments unchanged", step["m"])
+
+
+def gen_alias_history(rng):
+    unit = rng.choice(["us", "ms", "ms", "s"])
+    per = {"us": 1, "ms": 1000, "s": 10 ** 6}[unit]
+    nbase = rng.randrange(2, 9)
+    t0 = rng.randrange(-86400, 86400) * 10 ** 6
+    dt = rng.choice([1, 10, 30, 60, 600]) * 10 ** 6
+    base_us = [t0 + i * dt for i in range(nbase)]
+    view = None
+    if nbase >= 3 and rng.random() < 0.4:
+        lo = rng.randrange(0, nbase - 1)
+        view = [lo, rng.randrange(lo + 1, nbase + 1)]
+    n = (view[1] - view[0]) if view else nbase
+    h = {"unit": unit, "base_us": base_us, "view": view,
+         "lon": [rng.uniform(-180, 180) for _ in range(n)], "lat": [rng.uniform(-70, 70) for _ in range(n)],
+         "alt": [rng.uniform(0, 3) for _ in range(n)], "steps": []}
+
+    def delta():
+        return rng.choice([1, -1]) * rng.choice([1, 30, 120, 3600, 5400]) * (10 ** 6 // per) * rng.randrange(1, 4)
+    for k in range(rng.randrange(2, 9)):
+        if h["steps"] and rng.random() < 0.35:
+            m, norm = h["steps"][-1]["m"], h["steps"][-1].get("normalize")
+        else:
+            m, norm = rng.choice(ALIAS_KINDS[:4] * 4 + ALIAS_KINDS[4:])
+        muts = []
+        if k > 0 and rng.random() < 0.85:
+            ops = ["iadd", "iadd", "setitem"] + (["base_iadd", "base_iadd", "base_setitem"] if view else [])
+            op = rng.choice(ops)
+            muts.append({"op": op, "d": delta(), "i": rng.randrange(0, 8)})
+            if rng.random() < 0.3:
+                muts.append(rng.choice([{"op": "obs_iadd", "dlon": rng.uniform(-20, 20), "dlat": rng.uniform(-5, 5)},
+                                        {"op": "obs_setitem", "i": rng.randrange(0, 8), "lon": rng.uniform(-180, 180),
+                                         "lat": rng.uniform(-70, 70)}]))
+        elif k > 0 and rng.random() < 0.5:
+            muts.append({"op": "obs_iadd", "dlon": rng.uniform(-20, 20), "dlat": rng.uniform(-5, 5)})
+        st = {"m": m, "mut": muts}
+        if m == "get_position":
+            st["normalize"] = bool(norm)
+        h["steps"].append(st)
+    return h
 
 
 # ---------------------------------------------------------------- (2) deterministic scheduler
@@ -986,6 +1121,20 @@ def oracle(ctx):
             ctx.bump("history_length", len(hist))
             if len(ctx.violations) > 20:
                 return
+    # (1b) aliasing histories: one argument buffer re-used and changed in place between consecutive queries
+    budget = Budget(ctx, (6 if not ctx.intensified else 15) if quick else 60)
+    for sat in sats:
+        for _ in range(ctx.size(40, 400) * scale):
+            if budget.over():
+                break
+            h = gen_alias_history(ctx.rng)
+            run_alias_history(sat, h, viol, count=lambda: ctx.count("eval_alias_query"))
+            ctx.distinct((sat.tle[0][2:7], "a", json.dumps(h, sort_keys=True)))
+            ctx.bump("alias_history_length", len(h["steps"]))
+            for st in h["steps"]:
+                ctx.bump("alias_steps", "%s after %s" % (st["m"], "+".join(m["op"] for m in st["mut"]) or "no change"))
+            if len(ctx.violations) > 20:
+                return
     budget = Budget(ctx, (30 if not ctx.intensified else 60) if quick else 420)
 
     # (2) schedules
@@ -1050,6 +1199,15 @@ def _replay_one(inp, found, corr):
                 found.append(("non_canonical_slot_value", "; ".join(sorted(set(bad))[:3]), "canonical values only"))
         judge_results(sat, inp["queries"], inp["plan"], r, viol, warm)
         model_says(line, exp)
+    elif inp.get("kind") == "alias":
+        h = inp["alias"]
+        print("one time buffer (%d x datetime64[%s]%s) re-used by %d consecutive queries on one object:" % (
+            len(h["base_us"]), h["unit"], ", passed as the view [%d:%d]" % tuple(h["view"]) if h.get("view") else "",
+            len(h["steps"])))
+        for st in h["steps"]:
+            print("   caller:", ", ".join(json.dumps(m, sort_keys=True) for m in st.get("mut") or []) or "(no change)",
+                  " then", st["m"], "" if st.get("normalize") is None else "normalize=%s" % st["normalize"])
+        run_alias_history(sat, h, viol)
     elif inp.get("kind") == "free":
         old = sys.getswitchinterval()
         sys.setswitchinterval(1e-6)
